@@ -640,8 +640,10 @@ def file_topology(d):
         t1 = th[0, aidx(j22)] + dyv
         if abs(t0) > 1e-9 or abs(t1 - 2 * math.pi) > 1e-9:
             fails.append(dict(problem="theta is not 0..2pi round the core", theta_first_core_face=float(t0), theta_after_last_core_cell=float(t1)))
-    if "chi" in f:
-        chi = np.array(f["chi"])
+    for chi_name in ("chi", "chi_xlow", "chi_ylow"):
+        if chi_name not in f:
+            continue
+        chi = np.array(f[chi_name])
         core = np.zeros(chi.shape[1], dtype=bool)
         for y in range(ny):
             in_core = (j11 < y <= j22) and not (dn and j21 < y <= j12)
@@ -652,7 +654,7 @@ def file_topology(d):
             fin = np.isfinite(chi[xin, :])
             no_bt = "Btxy" in f and not np.any(np.array(f["Btxy"]))
             if not np.array_equal(fin, core):
-                item = dict(problem="chi finite/NaN mask does not match the core cells", finite=[int(v) for v in fin], core=[int(v) for v in core])
+                item = dict(problem="%s finite/NaN mask does not match the core cells (first radial index)" % chi_name, finite=[int(v) for v in fin], core=[int(v) for v in core])
                 if no_bt and not fin.any():
                     # known finding F19 (reported under its own obligation name): without a toroidal
                     # field zShift = ShiftAngle = 0 and chi = 0/0 on closed field lines as well
